@@ -846,7 +846,12 @@ def observations(spec, tier="thorough"):
 
 
 def snap(canv):
-    return (canv.cols(), canv.rows(), canv.cursor, tuple(tuple(row) for row in canv.content()))
+    """Everything the statement lets an observer see of a canvas.  A canvas whose content() raises (not a
+    cache matter in itself) is observed as that exception, in both runs alike."""
+    try:
+        return (canv.cols(), canv.rows(), canv.cursor, tuple(tuple(row) for row in canv.content()))
+    except Exception as e:  # noqa: BLE001
+        return ("raised", "content():" + type(e).__name__, str(e)[:120])
 
 
 class World:
@@ -901,10 +906,11 @@ class World:
             CanvasCache.clear()
         try:
             r = self.step(ob, take_snap)
+            if ob[0] == "render":
+                # reading the canvas is part of the observation: a content() that raises is recorded as such
+                return self.held[-1][1] if take_snap else snap(r)
         except Exception as e:  # noqa: BLE001
             return ("raised", type(e).__name__, str(e)[:120])
-        if ob[0] == "render":
-            return self.held[-1][1] if take_snap else snap(r)
         return ("rows", r)
 
     def close(self):
@@ -940,10 +946,7 @@ def evaluate(spec, hist, tier="thorough"):
         a_res = [A.observe(ob, False) for ob in obs]
         handed_bad = None
         for i, (c, s0) in enumerate(A.held):
-            try:
-                s1 = snap(c)
-            except Exception as e:  # noqa: BLE001
-                s1 = ("raised", type(e).__name__, str(e)[:120])
+            s1 = snap(c)
             if s1 != s0:
                 handed_bad = {"held_index": i, "at_hand_out": _fmt(s0), "now": _fmt(s1)}
                 break
